@@ -192,9 +192,20 @@ class SetEncoder(encoder.SequenceEncoder):
 
             namedTypes = value.componentType
 
-            for idx, component in enumerate(value.values()):
+            for idx in range(len(namedTypes) or len(value)):
+                # an absent OPTIONAL or DEFAULT component is looked at, not
+                # instantiated: encoding leaves the value as it was
+                component = value.getComponentByPosition(
+                    idx, default=None, instantiate=False)
+
                 if namedTypes:
                     namedType = namedTypes[idx]
+
+                    if component is None:
+                        if namedType.isOptional or namedType.isDefaulted:
+                            continue
+
+                        component = value[idx]
 
                     if namedType.isOptional and not component.isValue:
                             continue
